@@ -62,6 +62,7 @@ def run(ctx):
     ctx.rule("R15.3", "integer / and % with a divisor that is not a non-zero literal are guarded against zero")
     ctx.rule("R15.4", "X[X.size() - k] is dominated by a test implying X.size() >= k")
     ctx.rule("R15.6", "parse_file returns get_error_count() == 0; every error() increments the count; a failed parse exits non-zero and no output is opened before parsing completed")
+    ctx.rule("R15.8", "every scanner loop that re-reads its look-ahead character inside the body can only go round while a test implying `c != EOF` holds (c != EOF, c == 'x', isX(c), c >= 0): at end of input it exits")
     ctx.rule("R15.7", "macro expansion excludes the macro being expanded: nested_ignores.insert(manifest) before the recursive expansion; the pushed expansion suppresses its own macro")
 
     # ------------------------------------------------------------ R15.1
@@ -185,6 +186,8 @@ def run(ctx):
             ctx.ob("R15.4", "%s|%s" % (f.name, _norm(show(node))), ok, f.loc(node), desc)
     ctx.floor("R15.2", "judged string-position sites", n_judged, 15)
     ctx.info("R15.2: %d position arguments that are loop indices / find() results were enumerated, not judged" % n_not)
+
+    scanner_loops(ctx)
 
     # ------------------------------------------------------------ R15.3
     n_div = 0
@@ -337,3 +340,95 @@ def run(ctx):
            "the pushed expansion sets _ignore_manifest on every path" if ok else
            "_ignore_manifest is set only for object-like macros: a function-like macro is re-expanded inside its own expansion "
            "(`#define F(x) F(x)` / `F(1)` recurses until the stack overflows)")
+
+
+
+INPUT_READS = {"get", "peek", "skip_whitespace", "skip_comment", "skip_c_comment", "skip_cpp_comment", "skip_digit_separator", "internal_get"}
+CTYPE = {"isspace", "isalnum", "isdigit", "isalpha", "isxdigit", "isupper", "islower", "ispunct", "isprint", "isgraph"}
+EOF_LOOP_EXEMPT = {
+    "CPPPreprocessor::peek": "the loop runs while c == EOF *and* an including file remains: it walks up the finite include stack, it does not consume input",
+}
+
+
+def scanner_loops(ctx):
+    """R15.8 (termination at end of input): get() returns EOF for ever once the input is exhausted, so a loop that keeps
+    calling it must not be able to cycle when its look-ahead character is EOF."""
+    db = ctx.db
+    n = 0
+    for f in db.functions:
+        if not (f.file.endswith("cppPreprocessor.cxx") or f.file.endswith("cppManifest.cxx")):
+            continue
+        cfg = f.cfg
+        for lp in f.walk():
+            if lp.get("k") not in ("while", "do", "for"):
+                continue
+            reads = {}
+            for x in walk(lp.get("body") or {}):
+                t = assigned_target(x)
+                if t:
+                    r = strip_casts(peel(t[1]))
+                    l = local_ref(t[0])
+                    if l is not None and r is not None and r.get("k") == "call" and callee_short(r) in INPUT_READS:
+                        reads.setdefault(l["d"], (l["n"], []))[1].append(x)
+            for d, (nm, sites) in reads.items():
+                n += 1
+                inst = "%s|loop@%s|%s" % (f.name, _norm(show(lp.get("c")))[:40] if lp.get("c") else lp["k"], nm)
+                if f.name in EOF_LOOP_EXEMPT:
+                    ctx.ob("R15.8", inst + "|exception", True, f.loc(lp), "reasoned exception: " + EOF_LOOP_EXEMPT[f.name])
+                    continue
+
+                def not_eof(atom, truth, d=d):
+                    if atom.get("k") == "call" and callee_short(atom) in CTYPE and atom.get("a"):
+                        return truth and (local_ref(atom["a"][0]) or {}).get("d") == d
+                    c = G.cmp_atom(atom)
+                    if not c:
+                        return False
+                    op, a, b = c
+                    if not truth:
+                        op = G.NEG[op]
+                    for u, v, o in ((a, b, op), (b, a, G.SWAP[op])):
+                        if (local_ref(u) or {}).get("d") != d:
+                            continue
+                        k = const_int(v)
+                        if k is None:
+                            continue
+                        if o == "!=" and k == -1:
+                            return True
+                        if o == "==" and k >= 0:
+                            return True
+                        if o in (">=",) and k >= 0:
+                            return True
+                        if o == ">" and k >= -1:
+                            return True
+                    return False
+                cut = set(G.edges_where(f, not_eof))
+                bad = None
+                # a cycle through the loop's own test (its left-most leaf is evaluated on every iteration), or through a
+                # read of the character, that survives once every edge implying c != EOF is removed
+                anchors = list(sites)
+                leaf = lp.get("c")
+                while leaf is not None:
+                    q = peel(leaf)
+                    if q is not None and q.get("k") == "bin" and q.get("op") in ("&&", "||"):
+                        leaf = q["x"]
+                    elif q is not None and q.get("k") == "un" and q.get("op") == "!":
+                        leaf = q["e"]
+                    else:
+                        leaf = q
+                        break
+                if leaf is not None and lp.get("k") != "do":
+                    anchors.append(leaf)
+                for x in anchors:
+                    loc = cfg.locate(x)
+                    if loc is None:
+                        continue
+                    seen = set()
+                    for idx, s0 in enumerate(cfg.blocks[loc[0]].succs):
+                        if s0 is not None and (loc[0], idx) not in cut:
+                            seen |= cfg.reachable(s0, cut_edges=cut)
+                    if loc[0] in seen:
+                        bad = x
+                ctx.ob("R15.8", inst, bad is None, f.loc(lp),
+                       "the loop %s" % ("cannot go round once `%s` is EOF" % nm if bad is None else "can go round again after `%s` with %s == EOF: no test implying %s != EOF lies on the cycle" % (show(bad), nm, nm)))
+    ctx.floor("R15.8", "scanner loops that re-read their look-ahead", n, 28)
+
